@@ -6,5 +6,5 @@ CONSTANTS
 VIEW view
 CONSTRAINT Bound
 INVARIANTS Exclusive ExactlyOneAtExit NeverOverTotal RefillCapped
-PROPERTIES AdoptKeepsCounter CompletedStable AbortedStable NoCompletionWithoutTrigger AbortNoEffectOnCompleted SetTotalIgnoredWhenTriggered
+PROPERTIES NeverOverTotalA RefillCappedA AdoptKeepsCounter CompletedStable AbortedStable NoCompletionWithoutTrigger AbortNoEffectOnCompleted SetTotalIgnoredWhenTriggered
 CHECK_DEADLOCK FALSE
